@@ -359,6 +359,8 @@ void replay_write(const char *path, const char *comment)
 	if(!f)
 		return;
 	fprintf(f, "# ROOT-Sim deterministic-simulation replay file\n");
+	if(getenv("VERIF_VARIANT"))
+		fprintf(f, "# variant=%s\n", getenv("VERIF_VARIANT"));
 	if(comment)
 		fprintf(f, "# %s", comment);
 #define X(n, d) fprintf(f, "p %s %lld\n", #n, (long long)P.n);
